@@ -14,7 +14,8 @@
      spec_stream c s ss_init ops   per tick, spec_tick applied to own_missing, over the history
    run / out_for are the generator model (Model/NackGen.v) and its projection to one SSRC. *)
 From IV Require Import Base.Word Model.ReceiveLog Model.NackGen Spec.NackSpec Spec.NackGenSpec
-  Proofs.ReceiveLogProofs Proofs.NackGenProofs Proofs.NackGenMore Proofs.ReceiveLogMore.
+  Proofs.ReceiveLogProofs Proofs.NackGenProofs Proofs.NackGenMore Proofs.ReceiveLogMore
+  Proofs.NackStreamFast Check.C03StreamCheck.
 
 (* FULL (generator model, whole histories): for every configuration, every SSRC and every
    operation list (binds with and without nack, arrivals and read errors on any SSRC, ticks
@@ -164,3 +165,22 @@ Theorem C03_missing_not_get : forall sz m0 l skip x,
   In x (missing (add_all m0 l) skip) -> get (add_all m0 l) x = false.
 Proof. exact missing_not_get. Qed.
 Print Assumptions C03_missing_not_get.
+
+(* the executable form of the specification used by the stream oracle computes spec_stream *)
+Theorem C03_fast_stream_is_spec_stream : forall c s ops,
+  fast_stream c s fs_init ops = spec_stream c s ss_init ops.
+Proof. intros c s ops. exact (fast_stream_eq c s ops fs_init ss_init frel_init). Qed.
+Print Assumptions C03_fast_stream_is_spec_stream.
+
+(* the stream oracle (api_stream_failures, applied to the IMPLEMENTATION's outputs) accepts a
+   case exactly when every tick output is well formed, there is one output per tick and, for
+   every SSRC that occurs in the case, the NACKs the implementation sent for it are the
+   right-hand side of C03_generator_requests_exactly_missing *)
+Theorem C03_stream_oracle_sound : forall sz skip mx ops outs ops', to_ops ops = Some ops' ->
+  (api_stream_code ((sz, skip, mx), ops, outs) = 0%nat <->
+   forallb sorted_keys (expand_outs outs) = true /\
+   length (expand_outs outs) = n_ticks ops' /\
+   forall s, In s (case_ssrcs ops' (expand_outs outs)) ->
+     map (out_for s) (expand_outs outs) = spec_stream (mk_cfg sz skip mx) s ss_init ops').
+Proof. exact api_stream_code_iff. Qed.
+Print Assumptions C03_stream_oracle_sound.
